@@ -15,7 +15,8 @@ ID = 'C14'
 DRIVER = 'drv_C14'
 PROOF_MODULES = ['OsloProofs.Props.C14']
 LEVEL = 'proof'
-RULE = ('per function, inputs built from its grammar: documented words x per-letter case x whitespace padding and '
+RULE = ('per function, inputs built from its grammar: documented words x per-letter case x whitespace padding (runs of '
+        '0,1,7,31,32,33,64,1000,70000 of every whitespace kind before/after/around/inside, word+gap+junk, junk+gap+word) and '
         'one-edit near-misses; integers at min/max and +-1 in int and str form with sign, whitespace, underscores, '
         'leading zeros, non-ASCII digits, Unicode confusables, floats, None/bytes/list/complex/bool; strings of length 0 and '
         'min/max +-1 built from ASCII, whitespace and every Unicode unit family (base+combining marks, Hangul jamo, precomposed, '
@@ -376,6 +377,99 @@ def padding(rng, chars=None, maxn=3):
     return ''.join(rng.choice(chars) for _ in range(rng.randrange(0, maxn + 1)))
 
 
+# run lengths around every plausible buffer / scan limit, up to sizes no implementation should care about
+RUN_SMALL = [0, 1, 7, 31, 32, 33, 64]
+RUN_BIG = [1000, 70000]
+
+
+def ws_run(rng, n, kind=None, chars=None):
+    """a run of n whitespace characters: one kind repeated, or (kind 'mixed') a random mixture"""
+    chars = chars or WS_CHARS
+    kind = kind if kind is not None else rng.choice(chars + ['mixed'])
+    if kind == 'mixed':
+        return ''.join(rng.choice(chars) for _ in range(n))
+    return kind * n
+
+
+def padded_shapes(rng, w, run, junk):
+    """the word with a whitespace run before / after / around / inside it, and with junk beyond the run"""
+    i = rng.randrange(1, len(w)) if len(w) > 1 else 0
+    return [('lead', run + w), ('trail', w + run), ('both', run + w + run),
+            ('word-gap-junk', w + run + junk), ('junk-gap-word', junk + run + w),
+            ('inner', (w[:i] + run + w[i:]) if i else run + w + junk)]
+
+
+def long_bool_values(rng, words, quick):
+    out = []
+    junks = ['x', '1', 'no', 'yes', '\x00', '.']
+    for w in words:
+        for n in RUN_SMALL:
+            for shape, text in padded_shapes(rng, recase(rng, w), ws_run(rng, n), rng.choice(junks)):
+                out.append((vstr(text), 'long-pad/%s/%d' % (shape, n)))
+    for w in ('true', 'no'):                          # every whitespace kind at the 31/32/33 boundary
+        for kind in WS_CHARS:
+            for n in (31, 32, 33):
+                out.append((vstr(kind * n + w), 'long-pad/lead-each-ws/%d' % n))
+                out.append((vstr(w + kind * n + 'x'), 'long-pad/word-gap-junk-each-ws/%d' % n))
+    for n in RUN_BIG:
+        reps = 1 if (quick and n > 1000) else (2 if quick else 4)
+        for _ in range(reps):
+            w = recase(rng, rng.choice(words))
+            kind = rng.choice([' ', '\t', '\n', rng.choice(WS_CHARS), 'mixed'])
+            for shape, text in padded_shapes(rng, w, ws_run(rng, n, kind), rng.choice(junks)):
+                out.append((vstr(text), 'long-pad/%s/%d' % (shape, n)))
+    return out
+
+
+def long_int_values(rng, quick):
+    """integers with long padding, long zero / underscore runs and long digit strings (up to the digit limit)"""
+    out = []
+    ws = sorted(INT_WS)
+    lim = sys.get_int_max_str_digits()
+    for n in RUN_SMALL + RUN_BIG:
+        t = text_of_int(rng.choice([0, 7, 42, -42, 2 ** 63, -(10 ** 20)]))
+        run = ws_run(rng, n, chars=ws)
+        out.append((vstr(run + t), 'long/ws-lead/%d' % n))
+        out.append((vstr(t + run), 'long/ws-trail/%d' % n))
+        out.append((vstr(run + t + run), 'long/ws-both/%d' % n))
+        out.append((vstr(t + run + '1'), 'long/gap-junk/%d' % n))
+        out.append((vstr('x' + run + t), 'long/junk-gap/%d' % n))
+        out.append((vstr(t.lstrip('-')[:1] + run + t.lstrip('-')[1:] + '0'), 'long/inner-ws/%d' % n))
+        if n <= (lim if lim > 0 else 4300) - 25:
+            out.append((vstr('0' * n + t.lstrip('-')), 'long/zeros/%d' % n))
+            out.append((vstr('1_' * n + '1'), 'long/underscores/%d' % n))
+            out.append((vstr('1' + '_' * n + '1'), 'long/underscore-run/%d' % n))
+        if n >= 1:
+            digits = rng.choice('123456789') + ''.join(rng.choice('0123456789') for _ in range(min(n, 4250) - 1))
+            out.append((vstr(digits), 'long/digits/%d' % len(digits)))
+            out.append((vstr('-' + digits), 'long/digits/%d' % len(digits)))
+            out.append((V('int', digits), 'long/int/%d' % len(digits)))
+            out.append((vstr(digits + '.0'), 'long/digits-float/%d' % len(digits)))
+            if len(digits) >= 1000:               # decorations that only differ far beyond any prefix one might compare
+                for name, text in (('trail-ws', digits + ' '), ('trail-junk', digits + 'x'), ('lead-zero', '0' + digits),
+                                   ('plus', '+' + digits), ('under', digits[:-1] + '_' + digits[-1:]),
+                                   ('last-digit', digits[:-1]), ('lead-ws', '\n' + digits)):
+                    out.append((vstr(text), 'long/digits-%s/%d' % (name, len(digits))))
+    return out
+
+
+def long_uuid_values(rng, quick):
+    out = []
+    for n in RUN_SMALL + RUN_BIG:
+        h = hex_string(rng, 32)
+        hy = hyphenated(h)
+        big = n > 1000
+        forms = [('braces', '{' * n + hy + '}' * n), ('hyphens-lead', '-' * n + h), ('hyphens-inner', h[:16] + '-' * n + h[16:]),
+                 ('urn-repeat', 'urn:' * n + 'uuid:' * n + h), ('urn-trail', h + 'urn:' * n), ('uuid-inner', h[:7] + 'uuid:' * n + h[7:]),
+                 ('ws-lead', ' ' * n + h if n else 'g' + h), ('junk-trail', h + 'x' * max(n, 1)), ('zeros-lead', '0' * max(n, 1) + h),
+                 ('hex-long', hex_string(rng, max(n, 1))), ('brace-inner', h[:9] + '{' * max(n, 1) + h[9:])]
+        if big and quick:
+            forms = forms[:4] + forms[6:8]
+        for name, text in forms:
+            out.append((vstr(text), 'long/%s/%d' % (name, n)))
+    return out
+
+
 def near_miss(rng, w, alphabet):
     k = rng.randrange(6)
     i = rng.randrange(len(w) + 1)
@@ -440,6 +534,7 @@ def gen_bool_values(rng, n, alphabet):
             out.append((vstr(c), 'confusable/case'))
             if rng.random() < 0.25:
                 out.append((vstr(rng.choice(WS_CHARS) + c + rng.choice(WS_CHARS)), 'confusable/case'))
+    out += long_bool_values(rng, words, n < 50000)
     lim = sys.get_int_max_str_digits()
     if lim > 0:                                       # str(int) at the conversion limit (known finding C14-F2)
         out.append((V('int', '1', zeros=lim - 1), 'limit/int/+0'))
@@ -448,6 +543,7 @@ def gen_bool_values(rng, n, alphabet):
              'True\n', '\ttrue', ' FALSE ', 'yEs', 'of', 'nO', 'y e s', '1 0', 't\x1cf']
     for s in fixed:
         out.append((vstr(s), 'fixed'))
+    n = max(n, len(out) + n // 5)                     # the structured part never crowds out the random stream
     while len(out) < n:
         r = rng.random()
         w = rng.choice(words)
@@ -540,6 +636,7 @@ def gen_intlike(rng, n, alphabet):
     for b in BOUNDS[1:]:
         out += gen_int_values(rng, b)
     out += limit_values()
+    out += long_int_values(rng, n < 50000)
     out += [(v, 'nonstr/' + v['t']) for v in other_values(rng)]
     for s in ['', '-', '+', '_', '0', '-0', '+0', '00', ' ', '1 2', '١٢', '1e3', 'one', '0x10', '1_000', '１２']:
         out.append((vstr(s), 'fixed'))
@@ -572,6 +669,9 @@ def gen_valint(rng, n, alphabet):
     for v, tag in limit_values():
         out.append((v, None, None, tag))
         out.append((v, 0, None, tag))
+    for v, tag in long_int_values(rng, n < 50000):
+        out.append((v, None, None, tag))
+        out.append((v, rng.choice([0, -100, None]), rng.choice([100, 10 ** 30, None]), tag))
     for v in other_values(rng):
         out.append((v, rng.choice(BOUNDS), rng.choice(BOUNDS), 'nonstr/' + v['t']))
     while len(out) < n:
@@ -611,6 +711,11 @@ def gen_strlen(rng, n, alphabet):
             for ln in (b - 1, b, b + 1):
                 for lo, hi in ((b, None), (0, b), (b, b)):
                     out.append((vstr(uni_text(rng, ln, unit)), lo, hi, 'len-at-bound/unit'))
+    for b in (1000, 70000):                           # no length is special: huge strings at huge and small bounds
+        for ln in (b - 1, b, b + 1):
+            for lo, hi in ((b, None), (0, b), (0, 255), (b, b)):
+                text = 'a' * ln if (lo, hi) == (0, 255) or rng.random() < 0.5 else uni_text(rng, ln)
+                out.append((vstr(text), lo, hi, 'len-at-bound/huge'))
     for v in other_values(rng) + [vint(3), vint(0)]:
         out.append((v, rng.choice(mins), rng.choice(maxs), 'nonstr/' + v['t']))
     while len(out) < n:
@@ -678,6 +783,7 @@ def gen_uuid(rng, n, alphabet):
            'uuid:' + h, 'urn:' + h, 'uurn:uid:' + h, 'uuid' + h, h + 'urn:', h[:31] + 'urn:' + h[31:]]
     for s in odd:
         out.append((vstr(s), 'odd'))
+    out += long_uuid_values(rng, n < 50000)
     for v in other_values(rng) + [vint(int(h, 16)), vint(0)]:
         out.append((v, 'nonstr/' + v['t']))
     for dname, dec in sorted(DECORATIONS.items()):
@@ -771,7 +877,7 @@ def gen_cases(ctx, alphabet):
 
 
 ACCEPT = {'bool': ('val:1', 'val:0'), 'boolstr': ('1',), 'intbool': ('1',), 'intlike': ('1',), 'uuid': ('1',)}
-NEAR_TAGS = ('near', 'bound', 'len-at-bound', 'word', 'limit', 'one-bad-char', 'scattered', 'odd', 'len3', 'str/', 'fixed', 'confusable')
+NEAR_TAGS = ('long', 'near', 'bound', 'len-at-bound', 'word', 'limit', 'one-bad-char', 'scattered', 'odd', 'len3', 'str/', 'fixed', 'confusable')
 
 
 def is_nontrivial(case, tag, impl):
